@@ -24,19 +24,19 @@ CHECKS.update({
    text="All sources of <=3 (quick) / <=5 (thorough) lines over a 20-symbol line alphabet chosen from the branches of the directive state machine (plus 4 run symbols to length 3/4, plus a 20-symbol extension alphabet - tab indentation, blank/non-ASCII prefixes, after, CRLF and mixed includes, sub-directory temp targets - to length 3/4), and all include projects on <=2/3 files across three directory levels x 6 body styles x the three source-name shapes, x LF/CRLF x final newline x trailing-newline option, each built by the real preprocess (first pass, final pass and in-memory mode for short ones) and compared byte for byte (output, temp target, verdict) with the parse-then-render reference interpreter on the documented domain (DESIGN 4.3).",
    ref="4.2, 4.3, 4.7, 5/C01", note=E_NOTE),
  "C12": dict(engine="E-lines", technique=E_TECH,
-   text="All sources of <=4/5 lines over 9 line shapes with every source line carrying its own terminator (LF/CRLF/none), included file in 4 line-ending variants and command output in 2: byte scan of output and temp target for any terminator other than the first line's.",
+   text="All sources of <=4/5 lines over 9 line shapes with every source line carrying its own terminator (LF/CRLF/none), included file in 4 line-ending variants and command output in 3: byte scan of output and temp target for any terminator other than the first line's; every uniformly terminated source is also rebuilt (build and --needed) over generated files holding the same text with the other line ending.",
    ref="4.7, 5/C12", note="Trusted: the byte-scan oracle needs no model; domain: CR only before LF. " + E_NOTE),
  "C13": dict(engine="E-lines", technique=E_TECH,
    text="The C01 source space built with the option on and off by the real preprocess: verdicts equal, temp targets equal, outputs equal or differing by exactly one final line ending, and exactly so when the source ends in an ordinary text line; plus the production CLI's -n flag on all sources of <=1/2 lines.",
    ref="4.7, 5/C13", note=E_NOTE),
  "C14": dict(engine="U-tag", technique="explicit-state BFS over the reference tag store; every model transition replayed on the real TagState and the resulting state probed; hash iteration orders observed exhaustively per order-sensitive transition",
-   text="BFS to depth 5/7 over the reference store (7 prefix-rich names, 6 contents incl. mixed newlines, all inject lines of <=4/5 chars over {a,b,-} x LF/CRLF): every transition of every reachable model state is executed on a real TagState rebuilt from the state's history; return value, resulting names and contents must agree, under every observed iteration order of the hash map. Whole files of <=4/5 lines over a 13-line tag alphabet are compared with M and repeated.",
+   text="BFS to depth 5/7 over the reference store (7 prefix-rich names, 9 contents incl. LF, CRLF and mixed terminators, all inject lines of <=4/5 chars over {a,b,-} x LF/CRLF): every transition of every reachable model state is executed on a real TagState rebuilt from the state's history; return value, resulting names and contents must agree, under every observed iteration order of the hash map. Whole files of <=4/5 lines over a 13-line tag alphabet are compared with M and repeated.",
    ref="4.7, 5/C14", note="Trusted: the reference store (harness/src/tags.rs, an ordered map written from the property text). Hash order is observed via Display, not controlled (cap 200 tries per transition)."),
  "C15": dict(engine="U-gram", technique=E_TECH,
-   text="Every line of <=4/5 tokens over a 20-token alphabet (incl. U+3000, VT, upper-case look-alikes) through the real Directive::detect_from, every (directive line, next line) pair through the real add_line, compared with a reference classifier/continuation matcher written from the property statement; end-to-end sources [l1,l2,END] through whole-file preprocess against M.",
+   text="Every line of <=4/5 tokens over a 20-token alphabet (incl. U+3000, VT, upper-case look-alikes) through the real Directive::detect_from, every (directive line of <=4 tokens, next line) pair through the real add_line, compared with a reference classifier/continuation matcher written from the property statement; end-to-end sources [l1,l2,END] through whole-file preprocess against M.",
    ref="4.7, 5/C15", note=E_NOTE + " Q4 pairs (spaces form after a non-ASCII prefix) are excluded and counted."),
  "C16": dict(engine="E-lines", technique=E_TECH,
-   text="All texts over 9 directive look-alike tokens (<=2 tokens x <=2/3 lines and <=3 tokens x <=1/2 lines): directive-free ones must be reproduced verbatim (LF/CRLF, final newline, option); every admissible text is round-tripped through its write-escape with and without a stored tag in scope; on the C01 space ordinary lines must appear in order.",
+   text="All texts over 9 directive look-alike tokens (<=2 tokens x <=2/3 lines and <=3 tokens x <=1/2 lines): directive-free ones must be reproduced verbatim (LF/CRLF, final newline, option); every admissible text is round-tripped through its write-escape without a stored tag, with one in scope, and captured by a second tag and injected next to the first; on the C01 space ordinary lines must appear in order.",
    ref="4.7, 5/C16", note=E_NOTE),
 })
 H_NOTE = ("Trusted: the OS file system (tmpfs); runs use the controller's canonical schedule (schedules belong to C02-C05); Fresh(sources) is computed "
@@ -52,10 +52,10 @@ CHECKS.update({
  "C09": dict(engine="H", technique=H_TECH, ref="4.6, 5/C09", note=H_NOTE,
    text="Same search: every --needed transition is paired with a normal build and a verify from a copy of the same state: same verdict and bytes; outputs whose content was already correct keep inode and sentinel mtime; temp targets already correct are not rewritten by build, needed or verify; stale ones are brought up to date."),
  "C10": dict(engine="H", technique=H_TECH, ref="4.6, 5/C10", note=H_NOTE,
-   text="Every transition of the search and every mode on all sources of <=3/5 lines over the look-alike alphabet, successful and failing runs: the set of paths whose existence, bytes, inode or mtime changed is a subset of the outputs and temp targets of the processed sources (decoys at near-miss names in every directory); verify leaves outputs untouched; clean creates nothing."),
+   text="Every transition of the search and every mode on all sources of <=3/5 lines over the look-alike alphabet, successful and failing runs: the set of paths whose existence, bytes, inode or mtime changed is a subset of the outputs and temp targets of the processed sources (decoys at near-miss names in every directory); verify leaves outputs untouched; clean creates nothing; the production binary repeats the transitions of three projects, the sub-commands also with -N in front."),
  "C17": dict(engine="E-conf", technique="exhaustive enumeration of a finite configuration space, each configuration executed on the real library (in a child process with the required cwd) or the production binary",
    ref="4.7, 5/C17", note="Trusted: sh, bash, pwd -P. TXTPP_FILE 'designates' the source if it resolves to it as absolute path, relative to the base directory, or relative to the command's directory (Q5).",
-   text="depth 0..3 x {library with 4 base-dir/cwd relations, CLI} x {default shell, bash -c, an argv-echo script} x {3 command shapes, exit codes 0/1/7, death by SIGKILL} (420 configurations) plus the TXTPP_FILE guard of the binary in 4 modes and a source that calls txtpp: working directory, TXTPP_FILE, the single joined argument seen by the shell, stdout splicing and exit-status handling."),
+   text="depth 0..3 x {library with 4 base-dir/cwd relations, CLI} x {default shell, bash -c, an argv-echo script} x {3 command shapes, exit codes 0/1/7, death by SIGKILL} (420 configurations) plus the TXTPP_FILE guard of the binary in 4 modes, a source that calls txtpp, and a source with commands that enters the run only as a dependency (below / above the depender): working directory, TXTPP_FILE, the single joined argument seen by the shell, stdout splicing and exit-status handling."),
 })
 CHECKS.update({
  "C04": dict(engine="S + X", technique="fault enumeration crossed with stateless model checking: every (fault kind, position, mode, input selection) explored under ALL task completion orders of the real coordinator; write limits enumerated at every byte count on the production binary",
@@ -63,10 +63,10 @@ CHECKS.update({
    text="Project a->b->c plus unrelated d: 15 fault kinds (directive errors, non-zero exit and death by signal of a command, unreadable/invalid includes and sources, occupied or unwritable output and temp paths, in-process write limits, verify mismatches) x 5 positions of the faulty file (root, middle, leaf, sibling, sibling with an empty output) x {build, needed, verify, clean where it applies} x pool sizes (unsaturated, 1, 2) x input selections, each explored under all completion orders: the run must return Err in every schedule (never Ok, hang or panic); the fault-free baseline must return Ok with correct outputs in every schedule. Fault sequences: a fault in a->b plus a directory that vanishes while it waits to be scanned (-r), all completion orders. RLIMIT_FSIZE = n for every n from 0 to the largest generated file + 1 on the production binary: exit 0 iff nothing hit the limit, and then all outputs are complete; and on a project whose outputs end with one chunk > 8 KiB (include, command output, long last line, temp target): every multiple of 512 and +-1 around every multiple of 4096, trailing newline on/off, build and --needed."),
  "C11": dict(engine="E-tree", technique="exhaustive enumeration of directory trees x input lists x options, each executed on the real Txtpp::run (processed sources observed through the hook trace) and compared with a reference set-of-sources function",
    ref="4.7, 5/C11", note="Trusted: the reference function expected_set (harness/src/etree.rs), written from the property statement; canonical schedule.",
-   text="8 (quick) / 512 (thorough) trees over 3 directory levels x subsets of the three source-name shapes, with look-alike names in every directory, dotted-stem names and an include variant; input lists of length <=1/2 over 15 spellings (directories, either name, ./ and ../, absolute, missing, look-alikes) x recursive x build/needed/verify/clean x absolute/relative base: the processed set (hook trace), the created / removed / verified outputs and their names must be exactly what the statement prescribes; a target without source must fail."),
+   text="8 (quick) / 512 (thorough) trees over 3 directory levels x subsets of the three source-name shapes, with look-alike names in every directory, dotted-stem names and an include variant; input lists of length <=1/2 over 21 spellings (incl. sibling directories in a string-prefix relation) (directories, either name, ./ and ../, absolute, missing, look-alikes) x recursive x build/needed/verify/clean x absolute/relative base: the processed set (hook trace), the created / removed / verified outputs and their names must be exactly what the statement prescribes; a target without source must fail."),
  "C18": dict(engine="E-bytes", technique="bounded-exhaustive enumeration of hostile byte strings, arguments and option values, each executed on the real Txtpp::run under the controller (worker panics and the resulting coordinator hang are observed) and on the production binary",
    ref="4.7, 5/C18", note="Trusted: nothing beyond the OS. Bytes outside the 17-token alphabet and strings longer than the bound are not covered; special files are outside the domain.",
-   text="All byte strings of <=3/4 tokens over 17 hostile tokens (NUL, 0xff, split UTF-8, lone CR, directive fragments) in 4 roles (source, included file, existing output, existing temp target) x 4 modes; 270+ hostile directive lines; lines of 8191/8192/8193/65537 bytes; threads 0..16, 7 shells, bad base directories and inputs; the production binary on a 33-case core x 4 modes x thread counts x recursive: every run returns Ok or Err, no thread panics, the binary exits 0 or 1 in bounded time."),
+   text="All byte strings of <=3/4 tokens over 17 hostile tokens (NUL, 0xff, split UTF-8, lone CR, directive fragments) in 4 roles (source, included file, existing output, existing temp target) x 4 modes; 270+ hostile directive lines; lines of 8191/8192/8193/65537 bytes; commands writing 65536/65537/300000 bytes to stdout / stderr / both; threads 0..16, 7 shells, bad base directories and inputs; the production binary on a 33-case core x 4 modes x thread counts x recursive: every run returns Ok or Err, no thread panics, the binary exits 0 or 1 in bounded time."),
 })
 NOT_YET = {}
 props = [json.loads(l) for l in open("/verif/properties.jsonl")]
